@@ -80,10 +80,13 @@ package db
 // the functions that build it (checked syntactically over the loaded packages, #stable[...]).
 //@ type rq/command/proto.Request
 //@   stable Transaction, RollbackOnError, Statements, DbTimeout
-//@   stable_set_in RequestStringStmts, RequestStringStmtsWithTimeout
+//@   stable_set_in RequestStringStmts, RequestStringStmtsWithTimeout, handleLoad
+//@ type rq/command/proto.Command
+//@   stable Type, SubCommand, Compressed
+//@   stable_set_in none
 //@ type rq/command/proto.Statement
 //@   stable Sql, Parameters, ForceQuery, SqlExplain
-//@   stable_set_in none
+//@   stable_set_in ParseRequest
 //@ func (*DB) executeWithConn
 //@   requires [recv] db != nil && req != nil && conn != nil
 //@   ghost var began bool = false
@@ -189,3 +192,21 @@ package db
 //@   ensures [failure-reported] retErr != nil ==> typeis(res.Result, "*github.com/rqlite/rqlite/v10/command/proto.ExecuteQueryResponse_Error")
 //@ func createEQQueryResponse
 //@   ensures [response-always] result != nil && typeis(result.Result, "*github.com/rqlite/rqlite/v10/command/proto.ExecuteQueryResponse_Q")
+//
+// ---- C22: replacing the database ------------------------------------------------------------------
+// Swap: the replacement file is validated before anything of the current database is touched
+// (invalid data => error and no change), and it is the given file that is moved into place.
+//@ func (*SwappableDB) Swap
+//@   requires [recv] s != nil
+//@   assigns *, optHas, optVal, handleOpen, handleDSN
+//@   ghost var validOK bool = false
+//@   ghost var closedOld bool = false
+//@   ghost var removedOld bool = false
+//@   assert @IsValidSQLiteFile: [validates-given-file] arg0 == path
+//@   ghost update @IsValidSQLiteFile: validOK = result
+//@   assert @s.db.Close: [valid-before-close] validOK
+//@   ghost update @s.db.Close: closedOld = (result == nil)
+//@   assert @RemoveFiles: [valid-before-remove] validOK && closedOld
+//@   ghost update @RemoveFiles: removedOld = (result == nil)
+//@   assert @os.Rename: [installs-given-file] validOK && closedOld && removedOld && arg0 == path
+//@   ensures [invalid-rejected] !validOK ==> result != nil
